@@ -160,7 +160,7 @@ def script_body(codes, twin):
     seq = decode(codes, len(alphabet))
     if seq is None:
         return True
-    seq = [PARAMS["first"]] + [P_CMDS.index(alphabet[c]) for c in seq]
+    seq = [PARAMS["first"]] + ([PARAMS["second"]] if "second" in PARAMS else []) + [P_CMDS.index(alphabet[c]) for c in seq]
     with NoTracing():
         from pysmt import typing as T
         from pysmt.smtlib.script import SmtLibScript, SmtLibCommand
